@@ -7,8 +7,8 @@ package psatoken
 
 //@ global
 //@   invariant[sent-nonnil] ErrMissingOptional != nil && ErrMissingMandatory != nil && ErrNotInProfile != nil && ErrWrongProfile != nil && ErrWrongSyntax != nil
-//@   invariant[sent-self] errIs(ErrMissingOptional, ErrMissingOptional) && errIs(ErrMissingMandatory, ErrMissingMandatory) && errIs(ErrNotInProfile, ErrNotInProfile) && errIs(ErrWrongProfile, ErrWrongProfile) && errIs(ErrWrongSyntax, ErrWrongSyntax)
-//@   invariant[sent-derived] errIs(ErrOptionalClaimMissing, ErrMissingOptional) && errIs(ErrMandatoryClaimMissing, ErrMissingMandatory) && errIs(ErrClaimNotInProfile, ErrNotInProfile) && errIs(ErrOptionalFieldMissing, ErrMissingOptional) && errIs(ErrMandatoryFieldMissing, ErrMissingMandatory) && errIs(ErrFieldNotInProfile, ErrNotInProfile)
+//@   invariant[sent-self] errOnly(ErrMissingOptional, ErrMissingOptional) && errOnly(ErrMissingMandatory, ErrMissingMandatory) && errOnly(ErrNotInProfile, ErrNotInProfile) && errOnly(ErrWrongProfile, ErrWrongProfile) && errOnly(ErrWrongSyntax, ErrWrongSyntax)
+//@   invariant[sent-derived] errOnly(ErrOptionalClaimMissing, ErrMissingOptional) && errOnly(ErrMandatoryClaimMissing, ErrMissingMandatory) && errOnly(ErrClaimNotInProfile, ErrNotInProfile) && errOnly(ErrOptionalFieldMissing, ErrMissingOptional) && errOnly(ErrMandatoryFieldMissing, ErrMissingMandatory) && errOnly(ErrFieldNotInProfile, ErrNotInProfile)
 
 // ---------------------------------------------------------------- claims_common.go
 
@@ -30,5 +30,169 @@ package psatoken
 //@ func ValidateSecurityLifeCycle
 //@   property C14 C01 C05 C13 C17 C18
 //@   ensures[iff] (ret == nil) == specLifecycle(v)
-//@   ensures[class] ret != nil ==> errIs(ret, ErrWrongSyntax)
+//@   ensures[class] ret != nil ==> errOnly(ret, ErrWrongSyntax)
 //@   modifies nothing
+
+//@ func ValidateImplID
+//@   property C01 C05 C11 C13 C17 C18
+//@   ensures[iff] (ret == nil) == specImplIDLen(len(v))
+//@   ensures[class] ret != nil ==> errOnly(ret, ErrWrongSyntax)
+//@   modifies nothing
+
+//@ func ValidatePSAHashType
+//@   property C01 C05 C11 C13 C17 C18
+//@   ensures[iff] (ret == nil) == specHashLen(len(b))
+//@   ensures[class] ret != nil ==> errOnly(ret, ErrWrongSyntax)
+//@   modifies nothing
+
+//@ func ValidateNonce
+//@   property C01 C05 C11 C13 C17 C18
+//@   ensures[iff] (ret == nil) == specHashLen(len(v))
+//@   ensures[class] ret != nil ==> errOnly(ret, ErrWrongSyntax)
+//@   modifies nothing
+
+//@ func ValidateInstID
+//@   property C01 C05 C11 C13 C17 C18
+//@   ensures[iff] (ret == nil) == specInstID(len(v), v[0])
+//@   ensures[class] ret != nil ==> errOnly(ret, ErrWrongSyntax)
+//@   modifies nothing
+
+//@ func ValidateVSI
+//@   property C01 C05 C11 C13 C17 C18
+//@   ensures[iff] (ret == nil) == specVSI(v)
+//@   ensures[class] ret != nil ==> errOnly(ret, ErrWrongSyntax)
+//@   modifies nothing
+
+//@ func ValidateHashAlgID
+//@   property C05 C17 C18
+//@   ensures[class] ret != nil ==> errOnly(ret, ErrWrongSyntax)
+//@   modifies nothing
+
+// ---------------------------------------------------------------- errors.go
+
+//@ func FilterError
+//@   property C01 C13 C05 C17 C18
+//@   ensures[nil] (ret == nil) == (e == nil || errIs(e, ErrMissingOptional) || errIs(e, ErrNotInProfile))
+//@   ensures[same] ret != nil ==> ret == e
+//@   modifies nothing
+
+// ---------------------------------------------------------------- swcomponent.go
+
+//@ func (SwComponent).GetMeasurementValue
+//@   property C01 C05 C13 C17 C18
+//@   ensures[absent] sc.MeasurementValue == nil ==> ret0 == nil && ret1 != nil && errOnly(ret1, ErrMissingMandatory)
+//@   ensures[iff] sc.MeasurementValue != nil ==> ((ret1 == nil) == specHashLen(len(*sc.MeasurementValue)))
+//@   ensures[value] ret1 == nil ==> sc.MeasurementValue != nil && ret0 == *sc.MeasurementValue
+//@   ensures[class] sc.MeasurementValue != nil && ret1 != nil ==> ret0 == nil && errOnly(ret1, ErrWrongSyntax)
+//@   modifies nothing
+
+//@ func (SwComponent).GetSignerID
+//@   property C01 C05 C13 C17 C18
+//@   ensures[absent] sc.SignerID == nil ==> ret0 == nil && ret1 != nil && errOnly(ret1, ErrMissingMandatory)
+//@   ensures[iff] sc.SignerID != nil ==> ((ret1 == nil) == specHashLen(len(*sc.SignerID)))
+//@   ensures[value] ret1 == nil ==> sc.SignerID != nil && ret0 == *sc.SignerID
+//@   ensures[class] sc.SignerID != nil && ret1 != nil ==> ret0 == nil && errOnly(ret1, ErrWrongSyntax)
+//@   modifies nothing
+
+//@ func (SwComponent).GetMeasurementType
+//@   property C01 C05 C13 C17 C18
+//@   ensures[absent] sc.MeasurementType == nil ==> ret0 == "" && ret1 != nil && errOnly(ret1, ErrMissingOptional)
+//@   ensures[present] sc.MeasurementType != nil ==> ret1 == nil && ret0 == *sc.MeasurementType
+//@   modifies nothing
+
+//@ func (SwComponent).GetMeasurementDesc
+//@   property C01 C05 C13 C17 C18
+//@   ensures[absent] sc.MeasurementDesc == nil ==> ret0 == "" && ret1 != nil && errOnly(ret1, ErrMissingOptional)
+//@   ensures[present] sc.MeasurementDesc != nil ==> ret1 == nil && ret0 == *sc.MeasurementDesc
+//@   modifies nothing
+
+//@ func (SwComponent).GetVersion
+//@   property C01 C05 C13 C17 C18
+//@   ensures[absent] sc.Version == nil ==> ret0 == "" && ret1 != nil && errOnly(ret1, ErrMissingOptional)
+//@   ensures[present] sc.Version != nil ==> ret1 == nil && ret0 == *sc.Version
+//@   modifies nothing
+
+//@ func (SwComponent).Validate
+//@   property C01 C05 C13 C17 C18
+//@   ensures[iff] (ret == nil) == specComponentV(sc)
+//@   ensures[class-missing] specComponentMissingV(sc) ==> errOnly(ret, ErrMissingMandatory)
+//@   ensures[class-malformed] specComponentMalformedV(sc) ==> errOnly(ret, ErrWrongSyntax)
+//@   modifies nothing
+
+//@ func (*SwComponent).SetMeasurementType
+//@   property C11 C05 C13
+//@   requires sc != nil
+//@   ensures[ok] ret == nil && sc.MeasurementType != nil && *sc.MeasurementType == v && fresh(sc.MeasurementType)
+//@   modifies sc.MeasurementType
+
+//@ func (*SwComponent).SetVersion
+//@   property C11 C05 C13
+//@   requires sc != nil
+//@   ensures[ok] ret == nil && sc.Version != nil && *sc.Version == v && fresh(sc.Version)
+//@   modifies sc.Version
+
+//@ func (*SwComponent).SetMeasurementDesc
+//@   property C11 C05 C13
+//@   requires sc != nil
+//@   ensures[ok] ret == nil && sc.MeasurementDesc != nil && *sc.MeasurementDesc == v && fresh(sc.MeasurementDesc)
+//@   modifies sc.MeasurementDesc
+
+//@ func (*SwComponent).SetMeasurementValue
+//@   property C11 C05 C13
+//@   requires sc != nil
+//@   ensures[iff] (ret == nil) == specHashLen(len(v))
+//@   ensures[set] ret == nil ==> sc.MeasurementValue != nil && *sc.MeasurementValue == v && fresh(sc.MeasurementValue)
+//@   ensures[unchanged] ret != nil ==> sc.MeasurementValue == old(sc.MeasurementValue)
+//@   ensures[class] ret != nil ==> errOnly(ret, ErrWrongSyntax)
+//@   modifies sc.MeasurementValue
+
+//@ func (*SwComponent).SetSignerID
+//@   property C11 C05 C13
+//@   requires sc != nil
+//@   ensures[iff] (ret == nil) == specHashLen(len(v))
+//@   ensures[set] ret == nil ==> sc.SignerID != nil && *sc.SignerID == v && fresh(sc.SignerID)
+//@   ensures[unchanged] ret != nil ==> sc.SignerID == old(sc.SignerID)
+//@   ensures[class] ret != nil ==> errOnly(ret, ErrWrongSyntax)
+//@   modifies sc.SignerID
+
+// ---------------------------------------------------------------- iswcomponent.go
+
+//@ func ValidateSwComponent
+//@   property C01 C05 C13 C17 C18
+//@   requires typeIs(c, *SwComponent) && c.(*SwComponent) != nil
+//@   ensures[iff] (ret == nil) == specComponent(c.(*SwComponent))
+//@   ensures[class-missing] specComponentMissingV(*c.(*SwComponent)) ==> errOnly(ret, ErrMissingMandatory)
+//@   ensures[class-malformed] specComponentMalformedV(*c.(*SwComponent)) ==> errOnly(ret, ErrWrongSyntax)
+//@   modifies nothing
+
+// ---------------------------------------------------------------- swcomponents.go
+
+//@ func isNilComponent[*SwComponent]
+//@   property C01 C05 C17 C18
+//@   trusted reflection (reflect.ValueOf / Kind / IsNil); audited by the bounded assumption audit
+//@   ensures[nil] ret == (sc == nil)
+//@   modifies nothing
+//@   option allocs=none
+
+//@ func (SwComponents[*SwComponent]).IsEmpty
+//@   property C01 C05 C09 C10 C17 C18
+//@   ensures[len] ret == (len(o.values) == 0)
+//@   modifies nothing
+
+//@ func (SwComponents[*SwComponent]).Validate
+//@   property C01 C05 C13 C17 C18
+//@   ensures[iff] (ret == nil) == forall(j, 0, len(o.values), o.values[j] != nil && specComponent(o.values[j]))
+//@   ensures[class] ret != nil ==> errOnly(ret, ErrMissingMandatory) || errOnly(ret, ErrWrongSyntax)
+//@   modifies nothing
+//@   loop 0 invariant 0 <= i && i <= len(o.values)
+//@   loop 0 invariant forall(j, 0, i, o.values[j] != nil && specComponent(o.values[j]))
+
+//@ func (SwComponents[*SwComponent]).Values
+//@   property C01 C05 C13 C17 C18
+//@   ensures[iff] (ret1 == nil) == forall(j, 0, len(o.values), o.values[j] != nil && specComponent(o.values[j]))
+//@   ensures[values] ret1 == nil ==> len(ret0) == len(o.values) && fresh(ret0) && forall(j, 0, len(o.values), ret0[j] == ifaceOf(o.values[j], ISwComponent))
+//@   ensures[err] ret1 != nil ==> ret0 == nil
+//@   ensures[class] ret1 != nil ==> errOnly(ret1, ErrMissingMandatory) || errOnly(ret1, ErrWrongSyntax)
+//@   modifies nothing
+//@   loop 0 invariant 0 <= i && i <= len(o.values) && len(ret) == len(o.values) && fresh(ret) && ret != nil
+//@   loop 0 invariant forall(j, 0, i, o.values[j] != nil && specComponent(o.values[j]) && ret[j] == ifaceOf(o.values[j], ISwComponent))
